@@ -583,6 +583,41 @@ func (env *Env) evalCall(e *ECall) TV {
 		n := env.with(env.old)
 		n.inOld = true
 		return n.eval(e.Args[0])
+	case "count":
+		// count(k, n, P(k)): number of k in [0, n) with P(k); defined by an
+		// uninterpreted function with its recursive unfolding as axioms
+		if len(e.Args) != 3 {
+			efail("count(k, n, P) expects three arguments")
+		}
+		id, ok := e.Args[0].(*EIdent)
+		if !ok {
+			efail("count: first argument must be the bound variable")
+		}
+		n := env.evalInt(e.Args[1])
+		ex.qn++
+		bv := fmt.Sprintf("%s$%d", id.Name, ex.qn)
+		body := env.bind(id.Name, TV{V: vInt(bv), T: untypedInt}).evalBool(e.Args[2])
+		canon := strings.ReplaceAll(body, bv, "?k")
+		if ex.countCache == nil {
+			ex.countCache = map[string]string{}
+		}
+		f, have := ex.countCache[canon]
+		if have {
+			if _, ok := ex.sc.declared[f]; !ok {
+				have = false
+			}
+		}
+		if !have {
+			f = ex.sc.DeclareFun(ex.sc.fresh("count"), []Sort{SInt}, SInt)
+			ex.countCache[canon] = f
+			at := func(t string) string { return strings.ReplaceAll(canon, "?k", t) }
+			ex.sc.Assume(fmt.Sprintf("(forall ((n Int)) (! (=> (<= n 0) (= (%s n) 0)) :pattern ((%s n))))", f, f))
+			ex.sc.Assume(fmt.Sprintf("(forall ((n Int)) (! (=> (> n 0) (= (%s n) (+ (%s (- n 1)) (ite %s 1 0)))) :pattern ((%s n))))", f, f, at("(- n 1)"), f))
+			ex.sc.Assume(fmt.Sprintf("(forall ((n Int)) (! (=> (>= n 0) (and (<= 0 (%s n)) (<= (%s n) n))) :pattern ((%s n))))", f, f, f))
+			// some element satisfies P iff the count is positive (consequence by induction)
+			ex.sc.Assume(fmt.Sprintf("(forall ((n Int) (j Int)) (! (=> (and (<= 0 j) (< j n) %s) (> (%s n) 0)) :pattern ((%s n) %s)))", at("j"), f, f, firstApp(at("j"))))
+		}
+		return TV{V: vInt(mkApp(f, n)), T: untypedInt}
 	case "len":
 		x := env.eval(e.Args[0])
 		switch x.V.K {
@@ -667,11 +702,24 @@ func (env *Env) evalCall(e *ECall) TV {
 		efail("use typeis(x, T)")
 	case "typeis":
 		x := env.eval(e.Args[0])
-		ty := env.eval(e.Args[1])
-		if x.V.K != VIface || !ty.IsType {
+		var tt types.Type
+		if u, ok := e.Args[1].(*EUnary); ok && u.Op == "*" {
+			inner := env.eval(u.X)
+			if !inner.IsType {
+				efail("typeis: type expected")
+			}
+			tt = types.NewPointer(inner.T)
+		} else {
+			ty := env.eval(e.Args[1])
+			if !ty.IsType {
+				efail("typeis(iface, Type) expected")
+			}
+			tt = ty.T
+		}
+		if x.V.K != VIface {
 			efail("typeis(iface, Type) expected")
 		}
-		return TV{V: vBool(mkEq(x.V.Fs[0].T, ex.typeTag(ty.T))), T: tBool}
+		return TV{V: vBool(mkEq(x.V.Fs[0].T, ex.typeTag(tt))), T: tBool}
 	case "content":
 		x := env.eval(e.Args[0])
 		if x.V.K != VSlice {
@@ -683,7 +731,43 @@ func (env *Env) evalCall(e *ECall) TV {
 		return TV{V: vInt(mkSelect(ex.get(env.st, "CH.sent", SArr(SInt, SInt)), x.V.T)), T: untypedInt}
 	case "lastsent":
 		x := env.eval(e.Args[0])
+		if ct, ok := x.T.Underlying().(*types.Chan); ok {
+			et := ct.Elem()
+			if len(leavesOf(et)) > 1 || !isIntType(et) && !isBoolType(et) {
+				ls := leavesOf(et)
+				ts := make([]string, len(ls))
+				for i, l := range ls {
+					key := "CH.last." + typeKey(et) + "." + l.Path
+					ex.kinds[key] = l.Kind
+					ex.leafTyp[key] = l.Typ
+					ts[i] = mkSelect(ex.get(env.st, key, SArr(SInt, l.Sort)), x.V.T)
+				}
+				v, _ := unflatten(et, ts)
+				return TV{V: v, T: et}
+			}
+		}
 		return TV{V: vInt(mkSelect(ex.get(env.st, "CH.last", SArr(SInt, SInt)), x.V.T)), T: untypedInt}
+	case "cast":
+		// cast(x, T): the dynamic value of interface x viewed as T (meaningful when typeis(x, T))
+		x := env.eval(e.Args[0])
+		var ty types.Type
+		if u, ok := e.Args[1].(*EUnary); ok && u.Op == "*" {
+			inner := env.eval(u.X)
+			if !inner.IsType {
+				efail("cast: type expected")
+			}
+			ty = types.NewPointer(inner.T)
+		} else {
+			tv := env.eval(e.Args[1])
+			if !tv.IsType {
+				efail("cast: type expected")
+			}
+			ty = tv.T
+		}
+		if x.V.K != VIface {
+			efail("cast of non-interface")
+		}
+		return TV{V: ex.unbox(env.st, ty, x.V.Fs[1].T), T: ty}
 	case "alloc":
 		return TV{V: vInt(ex.get(env.st, allocKey, SInt)), T: untypedInt}
 	case "isfresh":
@@ -709,6 +793,32 @@ func (env *Env) evalCall(e *ECall) TV {
 			efail("errmsg of non-interface")
 		}
 		return TV{V: vInt(mkApp(ex.errMsgFun(), x.V.Fs[0].T, x.V.Fs[1].T)), T: types.Typ[types.String]}
+	}
+	// declared uninterpreted spec function
+	if u, ok := ex.ctr.UFs[e.Fn]; ok {
+		if len(u.Params) != len(e.Args) {
+			efail("uf %s: %d arguments expected", e.Fn, len(u.Params))
+		}
+		var sorts []Sort
+		var ts []string
+		for i, a := range e.Args {
+			pt := ex.resolveType(u.Params[i])
+			ls := leavesOf(pt)
+			if len(ls) != 1 {
+				efail("uf %s: scalar parameters only", e.Fn)
+			}
+			sorts = append(sorts, ls[0].Sort)
+			av := env.eval(a)
+			ts = append(ts, scalarTerm(av.V))
+		}
+		rt := ex.resolveType(u.ResT)
+		rl := leavesOf(rt)
+		if len(rl) != 1 {
+			efail("uf %s: scalar result only", e.Fn)
+		}
+		f := ex.sc.DeclareFun("uf."+e.Fn, sorts, rl[0].Sort)
+		v, _ := unflatten(rt, []string{mkApp(f, ts...)})
+		return TV{V: v, T: rt}
 	}
 	// integer conversions are the identity on mathematical integers
 	if len(e.Args) == 1 {
@@ -890,7 +1000,17 @@ func (env *Env) modLocs(e Expr) []ModLoc {
 			x := env.eval(e.Args[0])
 			ex.get(env.st, "CH.sent", SArr(SInt, SInt))
 			ex.get(env.st, "CH.last", SArr(SInt, SInt))
-			return []ModLoc{{Key: "CH.sent", Sort: SArr(SInt, SInt), Idx: []string{x.V.T}}, {Key: "CH.last", Sort: SArr(SInt, SInt), Idx: []string{x.V.T}}}
+			out := []ModLoc{{Key: "CH.sent", Sort: SArr(SInt, SInt), Idx: []string{x.V.T}}, {Key: "CH.last", Sort: SArr(SInt, SInt), Idx: []string{x.V.T}}}
+			if ct, ok := x.T.Underlying().(*types.Chan); ok {
+				for _, l := range leavesOf(ct.Elem()) {
+					key := "CH.last." + typeKey(ct.Elem()) + "." + l.Path
+					ex.kinds[key] = l.Kind
+					ex.leafTyp[key] = l.Typ
+					ex.get(env.st, key, SArr(SInt, l.Sort))
+					out = append(out, ModLoc{Key: key, Sort: SArr(SInt, l.Sort), Idx: []string{x.V.T}})
+				}
+			}
+			return out
 		}
 		if e.Fn == "boxes" {
 			return []ModLoc{{Key: "B.*", Whole: true}}
@@ -909,4 +1029,10 @@ func (env *Env) modLocs(e Expr) []ModLoc {
 	}
 	efail("unsupported modifies location")
 	return nil
+}
+
+// firstApp returns a sub-term usable as a pattern (the first application
+// containing the bound variable position), falling back to the whole term.
+func firstApp(t string) string {
+	return t
 }
